@@ -422,7 +422,7 @@ def run_one(seed, preset=None, tier="quick", want_case=False):
     r["case_digest"] = run_digest([b.sdl for b in bundles], [(o[0], o[1], o[2][1] if o[2] else None) for o in ops])
     r["evals"] = max(1, n_cmp)
     r["nontrivial"] = bool(not viol and shared >= 3 and (overlap[0] >= 2 or switches >= 3))
-    r["sched_kinds"] = {sch[0]: 1}
+    r["sched_kinds"] = {sch[0] + ("+eager" if sch[2].endswith("+eager") else ""): 1}
     r["metrics"] = {"bundles": len(bundles), "registration_steps": len(regs), "registration_bundle_switches": switches,
                     "shared_coordinates_max": shared, "max_cooks_overlapping": overlap[0], "probes_compared": n_cmp}
     r["faults"] = {}
